@@ -4,9 +4,9 @@ import (
 	"encoding/hex"
 	"encoding/json"
 	"errors"
-	"os"
 	"fmt"
 	"net"
+	"os"
 	"strconv"
 	"strings"
 
